@@ -25,16 +25,32 @@ impl ReadHalf {
     { unimplemented!() }
 }
 // the stream's sending side as the forwarder sees it
-pub struct FwdLog { pub ghost sent: Seq<u8>, pub ghost failed: bool, pub ghost fin: bool }
+pub struct FwdLog { pub ghost sent: Seq<u8>, pub ghost failed: bool, pub ghost fin: bool, pub ghost misrouted: bool }
 pub struct SendError;
 pub struct StreamW { pub id: u32 }
 impl StreamW {
     #[verifier::external_body]
     pub fn send_data(&self, data: Bytes, fx: &mut Ghost<FwdLog>) -> (r: std::result::Result<(), SendError>)
-        ensures r is Ok ==> final(fx)@.sent == old(fx)@.sent + data@ && final(fx)@.failed == old(fx)@.failed && final(fx)@.fin == old(fx)@.fin,
-                r is Err ==> final(fx)@.sent == old(fx)@.sent && final(fx)@.failed && final(fx)@.fin == old(fx)@.fin
+        ensures r is Ok ==> final(fx)@.sent == old(fx)@.sent + data@ && final(fx)@.failed == old(fx)@.failed && final(fx)@.fin == old(fx)@.fin && final(fx)@.misrouted == old(fx)@.misrouted,
+                r is Err ==> final(fx)@.sent == old(fx)@.sent && final(fx)@.failed && final(fx)@.fin == old(fx)@.fin && final(fx)@.misrouted == old(fx)@.misrouted
     { unimplemented!() }
 }
+
+// the session's sending side as the client-side forwarders see it: data submitted for stream `sid` extends `sent`;
+// data submitted under any other id sets `misrouted`
+pub struct SessionW { pub ghost sid: u32 }
+impl SessionW {
+    #[verifier::external_body]
+    pub fn write_data_frame(&self, stream_id: u32, data: Bytes, fx: &mut Ghost<FwdLog>) -> (r: std::result::Result<(), SendError>)
+        ensures final(fx)@.fin == old(fx)@.fin,
+                r is Ok ==> final(fx)@.failed == old(fx)@.failed
+                    && (stream_id == self.sid ==> final(fx)@.sent == old(fx)@.sent + data@ && final(fx)@.misrouted == old(fx)@.misrouted)
+                    && (stream_id != self.sid ==> final(fx)@.sent == old(fx)@.sent && final(fx)@.misrouted),
+                r is Err ==> final(fx)@.sent == old(fx)@.sent && final(fx)@.failed && final(fx)@.misrouted == old(fx)@.misrouted
+    { unimplemented!() }
+}
+// a scheduling point: no effect on any state the contracts talk about
+pub mod tokio { pub mod task { pub fn yield_now() {} } }
 
 // the two relay tasks as the function that spawned them sees them
 pub struct AbortHandle { pub ghost which: int }
@@ -58,3 +74,4 @@ pub fn vx_choice() -> (r: bool) { true }
 pub struct AtomicU64 { pub v: u64 }
 impl AtomicU64 { pub fn load(&self, o: std::sync::atomic::Ordering) -> (r: u64) ensures r == self.v { self.v } }
 pub use std::sync::atomic::Ordering;
+#[verifier::external_body] pub fn vx_slice_to_vec(s: &[u8]) -> (r: Vec<u8>) ensures r@ == s@ { s.to_vec() }
